@@ -9,7 +9,11 @@
      SEED                   A | integer
      EE    ensemble_engines A | - (empty list) | ens;ens;...   ens = _ (empty) | name,name,...
      SECS  top-level tables - | name:cls:inp:rest;...   cls = N|g|o   inp = N|integer
-   answer:   <check_config c> <validb c> <check_config (normalise c)> <validb (normalise c)> <normalise c, 10 fields> *)
+   answer:   <check_config c> <validb c> <check_config (normalise c)> <validb (normalise c)> <normalise c, 10 fields>
+   request:  setup STEPS CUR I W M CAP QUANTIS LM1 ACCEPT_ALL SEED EE SECS      (the route into setup_config)
+     STEPS simulation.steps integer
+     CUR   [current] table  N (absent: fresh input file) | cstep:p   p = 1 if every active path has its traj.txt, else 0
+   answer:   NONE (setup_config returns None) | <result> <validb c'> <c', 10 fields>   where setup_from = Some (c', result) *)
 let opt_of f none s = if s = none then None else Some (f s)
 let string_of_opt f none o = match o with None -> none | Some x -> f x
 
@@ -62,18 +66,33 @@ let string_of_config c =
      string_of_lm1 c.lm1; string_of_opt string_of_bool_ "A" c.accept_all;
      string_of_opt string_of_z "A" c.seed; string_of_ee c.ens_engs; string_of_secs c.sections]
 
+let config_of i w m cp qu l aa sd ee secs =
+  { interfaces = list_of_string q_of_string i; workers = z_of_string w;
+    moves = moves_of_string m; cap = opt_of q_of_string "N" cp;
+    quantis = opt_of bool_of_string_ "A" qu; lm1 = lm1_of_string l;
+    accept_all = opt_of bool_of_string_ "A" aa; seed = opt_of z_of_string "A" sd;
+    ens_engs = ee_of_string ee; sections = secs_of_string secs }
+
+let current_of_string s =
+  if s = "N" then None
+  else match String.split_on_char ':' s with
+    | [k; p] -> Some { cstep = z_of_string k; paths_present = bool_of_string_ p }
+    | _ -> failwith ("bad current " ^ s)
+
 let handle toks =
   match toks with
   | ["cfg"; i; w; m; cp; qu; l; aa; sd; ee; secs] ->
-    let c = { interfaces = list_of_string q_of_string i; workers = z_of_string w;
-              moves = moves_of_string m; cap = opt_of q_of_string "N" cp;
-              quantis = opt_of bool_of_string_ "A" qu; lm1 = lm1_of_string l;
-              accept_all = opt_of bool_of_string_ "A" aa; seed = opt_of z_of_string "A" sd;
-              ens_engs = ee_of_string ee; sections = secs_of_string secs } in
+    let c = config_of i w m cp qu l aa sd ee secs in
     let n = normalise c in
     String.concat " "
       [string_of_result (check_config c); string_of_bool_ (validb c);
        string_of_result (check_config n); string_of_bool_ (validb n); string_of_config n]
+  | ["setup"; steps; cur; i; w; m; cp; qu; l; aa; sd; ee; secs] ->
+    let c = config_of i w m cp qu l aa sd ee secs in
+    (match setup_from (z_of_string steps) (current_of_string cur) c with
+     | None -> "NONE"
+     | Some (n, r) ->
+       String.concat " " [string_of_result r; string_of_bool_ (validb n); string_of_config n])
   | _ -> "ERR bad command"
 
 let () = main_loop handle
